@@ -5,15 +5,17 @@ package main
 // spellings, unknown extra fields, null fields, malformed addresses) through the same loader and stage.
 
 import (
-	"sync"
 	"bytes"
 	"context"
 	"encoding/hex"
 	"errors"
 	"fmt"
+	"github.com/google/gopacket/macs"
 	"net"
+	"sort"
 	"strconv"
 	"strings"
+	"sync"
 	"time"
 
 	"github.com/v-byte-cpu/sx/pkg/scan"
@@ -23,6 +25,7 @@ import (
 
 func init() {
 	components["arpcache"] = arpcacheComponent
+	replayers["arpnil"] = func(f []string) string { return runArpNil(f[1]) }
 	replayers["arpc"] = func(f []string) string { return runArpC(f[1], f[2], f[3]) }
 }
 
@@ -70,6 +73,9 @@ func runArpC(linesHex, gwHex, reqs string) string {
 			out = "ERR"
 			return
 		}
+		// an address that is no IPv4 address at all has no entry: this is what the gateway lookup asks when the
+		// interface has no default route (getGatewayMAC -> cache.Get(nil))
+		nilHit := cache.Get(nil) != nil || cache.Get(net.IP{}) != nil
 		var gw net.HardwareAddr
 		if gwHex != "-" {
 			gw = net.HardwareAddr(hx.UnHex(gwHex))
@@ -88,12 +94,56 @@ func runArpC(linesHex, gwHex, reqs string) string {
 		}
 		wg.Wait()
 		out = outs[0]
+		if nilHit {
+			out += ",NIL-ADDRESS-HAS-AN-ENTRY"
+		}
 		for k := 1; k < streams; k++ {
 			if outs[k] != outs[0] {
 				out = outs[0] + ",CONCURRENT-STREAM-DIFFERS:" + outs[k]
 				break
 			}
 		}
+	})
+	if p {
+		return "PANIC " + strings.ReplaceAll(msg, "\t", " ")
+	}
+	return out
+}
+
+// hostileOUIs: the prefixes of the real vendor table whose name contains a character that JSON must escape
+var hostileOUIs = func() [][3]byte {
+	var out [][3]byte
+	for k, v := range macs.ValidMACPrefixMap {
+		for _, c := range v {
+			if c == '"' || c == '\\' || c < 0x20 || c > 0x7e {
+				out = append(out, k)
+				break
+			}
+		}
+	}
+	sort.Slice(out, func(i, j int) bool { return string(out[i][:]) < string(out[j][:]) })
+	return out
+}()
+
+// runArpNil loads a cache file and asks for the entry of "no address"
+func runArpNil(linesHex string) string {
+	var file bytes.Buffer
+	for _, h := range strings.Split(linesHex, ",") {
+		file.Write(hx.UnHex(h))
+		file.WriteByte('\n')
+	}
+	out := ""
+	p, msg := hx.Recover(func() {
+		cache := arp.NewCache()
+		if err := arp.FillCache(cache, &file); err != nil {
+			out = "ERR"
+			return
+		}
+		hit := 0
+		if cache.Get(nil) != nil || cache.Get(net.IP{}) != nil {
+			hit = 1
+		}
+		out = fmt.Sprintf("nilhit=%d", hit)
 	})
 	if p {
 		return "PANIC " + strings.ReplaceAll(msg, "\t", " ")
@@ -193,7 +243,9 @@ func arpcacheComponent(r *hx.Run) {
 	if r.Tier == "thorough" {
 		nA, nB = 12000, 40000
 	}
-	ipPool := func() net.IP { return net.IPv4(10, byte(rng.Intn(2)), byte(rng.Intn(3)), byte([]int{0, 1, 9, 10, 99, 100, 200, 255}[rng.Intn(8)])) }
+	ipPool := func() net.IP {
+		return net.IPv4(10, byte(rng.Intn(2)), byte(rng.Intn(3)), byte([]int{0, 1, 9, 10, 99, 100, 200, 255}[rng.Intn(8)]))
+	}
 	rndIP := func() net.IP {
 		if rng.Intn(3) == 0 {
 			return net.IPv4(byte(rng.Intn(256)), byte(rng.Intn(256)), byte(rng.Intn(256)), byte(rng.Intn(256)))
@@ -203,8 +255,14 @@ func arpcacheComponent(r *hx.Run) {
 	rndMAC := func() net.HardwareAddr {
 		m := make(net.HardwareAddr, 6)
 		rng.Read(m)
-		if rng.Intn(3) == 0 { // a prefix from the vendor table region
+		switch rng.Intn(6) {
+		case 0, 1: // a prefix from the vendor table
 			copy(m, []byte{0x00, 0x1b, 0x21})
+		case 2: // a prefix whose vendor NAME needs escaping in JSON (quotes, backslashes, non-ASCII, controls)
+			if len(hostileOUIs) > 0 {
+				o := hostileOUIs[rng.Intn(len(hostileOUIs))]
+				copy(m, o[:])
+			}
 		}
 		if rng.Intn(6) == 0 {
 			m[rng.Intn(6)] = []byte{0, 0x0a, 0xa0, 0xff, 0x10}[rng.Intn(5)]
@@ -384,6 +442,30 @@ func arpcacheComponent(r *hx.Run) {
 			lines = append(lines, line)
 		}
 		emit("B", lines, cls, known)
+	}
+	// ---- D: cache files that also hold IPv6 neighbours (merged from `ip -j neigh`): they load, they are never the
+	// answer for an IPv4 destination, and the lookup of "no address" (what getGatewayMAC asks when the interface has
+	// no default route: cache.Get(nil)) finds nothing
+	nD := 12
+	if r.Tier == "thorough" {
+		nD = 200
+	}
+	for i := 0; i < nD; i++ {
+		var lines []string
+		for j := 0; j < 1+rng.Intn(5); j++ {
+			lines = append(lines, fmt.Sprintf(`{"ip":"%s","mac":"%s"}`, rndIP(), rndMAC()))
+		}
+		for j := 0; j < 1+rng.Intn(2); j++ {
+			v6 := []string{"fe80::1", "2001:db8::5", "::1", "fe80::aa:bbff:fecc:ddee", "::"}[rng.Intn(5)]
+			at := rng.Intn(len(lines) + 1)
+			lines = append(lines[:at], append([]string{fmt.Sprintf(`{"ip":"%s","mac":"%s"}`, v6, rndMAC())}, lines[at:]...)...)
+		}
+		hl := make([]string, len(lines))
+		for k, l := range lines {
+			hl[k] = hx.HexS(l)
+		}
+		r.Count("D.v6entry")
+		r.Case("D/v6entry", "arpnil", strings.Join(hl, ","), runArpNil(strings.Join(hl, ",")))
 	}
 	// ---- C: long cache files (several read-buffer lengths): every entry must still be found afterwards,
 	// whatever memory the reader re-used while loading
